@@ -30,11 +30,11 @@ RULE = ('file from vt.gen.lis.lis_files (see LEVEL_TEXT); history: up to 10 setF
 ASSUMPTIONS = ['slices are the resolved form every caller passes: 0 <= start < stop <= total frames, step >= 1 (or None for everything); at least one frame selected',
                'code 50 words keep their exponent inside the 11 bit range the decoder implements (known finding C07-lis50-exponent-wrap owns the rest)',
                'X values and spacing are exactly representable in codes 68/73, frame spacing units equal the depth units',
-               'channel subsets are non-empty']
+               'the empty channel subset is exercised for explicit-X log passes (the X channel alone is loaded); with implied X an empty subset reads nothing and is not asserted']
 SHARDS = {'quick': 4, 'thorough': 16}
 REQUIRED_CLASSES = {'implied-x': 1, 'explicit-x': 1, 'load-step>1': 1, 'load-spans>=2-records': 1, 'channel-subset-with-gap': 1,
                     'short-last-record': 1, 'multi-sample-channel': 1, 'dipmeter-channel': 1, 'tif': 1, '>=2-log-passes': 1,
-                    'load-enters-record-after-first-frame': 1, 'up-log': 1}
+                    'load-enters-record-after-first-frame': 1, 'up-log': 1, 'empty-channel-subset': 1}
 for _rc in (49, 50, 56, 66, 68, 70, 73, 77, 79):
     REQUIRED_CLASSES['rc-%d' % _rc] = 1
 
@@ -179,6 +179,11 @@ def step(s, op, cc):
     nch = len(pm.cols)
     if op.get('channels') is None:
         chs, sel = None, list(range(nch))
+    elif op['channels'] == [] and not pm.lp['indirect']:
+        chs, sel = [], [0]          # the empty subset of an explicit-X log pass: the X channel alone
+        cc.cls('empty-channel-subset')
+    elif op['channels'] == []:
+        return                      # implied X with no channel at all: nothing is read; outside the asserted domain
     else:
         sel = sorted(set(c % nch for c in op['channels']))
         chs = list(sel)
@@ -289,6 +294,13 @@ class LoadMachine(HistoryMachine):
         """Most of the log pass with a step > 1 and two channels that are not neighbours."""
         self.op({'op': 'load', 'pass': p, 'start': start, 'length': 10 ** 6 - 1 - start, 'step': stepv, 'none_step': False,
                  'channels': [first, first + gap]})
+
+    @rule(p=st.integers(0, 2), sliced=st.booleans(), start=st.integers(0, 20), length=st.integers(0, 20))
+    def load_x_only(self, p, sliced, start, length):
+        if sliced:
+            self.op({'op': 'load', 'pass': p, 'start': start, 'length': length, 'step': 0, 'none_step': False, 'channels': []})
+        else:
+            self.op({'op': 'load', 'pass': p, 'all': True, 'channels': []})
 
     @rule(p=st.integers(0, 2), channels=st.lists(st.integers(0, 5), min_size=1, max_size=3))
     def load_channels(self, p, channels):
